@@ -176,9 +176,9 @@ def tlc(spec, cfg_text, env=None, workers=1, timeout=600, work=None, extra=(), h
         e = dict(os.environ)
         if env:
             e.update({k: str(v) for k, v in env.items()})
-        cmd = ["java", "-XX:+UseParallelGC"]
-        if heap:
-            cmd.append("-Xmx" + heap)
+        # the JVM's default maximum heap is a quarter of the machine's memory PER PROCESS; many TLC processes run side by side (16 validation
+        # chunks per check, several checks at a time), so every run gets an explicit bound
+        cmd = ["java", "-XX:+UseParallelGC", "-Xmx" + (heap or ("3g" if workers == 1 else "10g"))]
         cmd += ["-Xss256m", "-cp", TLC_JAR, "tlc2.TLC", "-workers", str(workers), "-metadir", os.path.join(sub, "md"),
                 "-config", cfg] + list(extra) + [spec + ".tla"]
         t0 = time.time()
